@@ -184,7 +184,7 @@ def gen_history(rng, pubkind, malformed=False, nops=None, last_terms=False, with
 
 def generate(rng, tier):
     big = tier == 'thorough'
-    n = 5000 if big else 300
+    n = 5000 if big else 240
     cases = []
     # boundary histories first: one refused / accepted offer around the limit on each geometry and hand-over point
     for pubkind in ('s', 'x'):
